@@ -166,7 +166,66 @@ def has_kwargs(stmts):
     return any((s["k"] == "call" and s.get("kwargs")) or (s["k"] == "def" and has_kwargs(s["body"])) for s in stmts)
 
 
-def generic_run(ctx, preds, classify, n_quick=300, n_thorough=6000, level="proof"):
+SHARED_CONSTS = "from nada_dsl import *\n\nSCALE = Integer(1000)\nLIMIT = Integer(7)\n"
+SHARED_A = ("from nada_dsl import *\nfrom consts import SCALE, LIMIT\n\n\ndef nada_main():\n    party_P0 = Party(name='P0')\n"
+            "    a = SecretInteger(Input(name='a', party=party_P0))\n    r = a * SCALE\n    t = r + LIMIT\n"
+            "    return [Output(t, 'o', party_P0)]\n")
+SHARED_B = ("from nada_dsl import *\nfrom consts import SCALE, LIMIT\n\n\ndef nada_main():\n    party_P0 = Party(name='P0')\n"
+            "    b = SecretInteger(Input(name='b', party=party_P0))\n    five = Integer(5)\n    q = b / SCALE\n    r = q - five\n"
+            "    c = r < LIMIT\n    return [Output(r, 'o1', party_P0), Output(c, 'o2', party_P0)]\n")
+
+
+def shared_module_program():
+    """surface form of SHARED_B (module-level literals become literal statements)"""
+    import targeted
+    return targeted.prog([{"k": "lit", "x": "SCALE", "b": "Int", "v": 1000}, {"k": "lit", "x": "LIMIT", "b": "Int", "v": 7},
+                          targeted.inp("b", "b", targeted.SI), {"k": "lit", "x": "five", "b": "Int", "v": 5},
+                          {"k": "bin", "x": "q", "op": "ODiv", "a": "b", "b": "SCALE"}, {"k": "bin", "x": "r", "op": "OSub", "a": "q", "b": "five"},
+                          {"k": "bin", "x": "c", "op": "OLt", "a": "r", "b": "LIMIT"}],
+                         [("o1", "P0", "r"), ("o2", "P0", "c")], ["shared-module-literals"])
+
+
+def second_compilation_case(ctx, preds, classify):
+    """two programs that import the same helper module (module-level literals), compiled one after the other in ONE
+    process: the predicates are evaluated on the MIR of the second one"""
+    import json
+    import os
+    import shutil
+    import tempfile
+    d = tempfile.mkdtemp(prefix="nadaverif_shared_")
+    try:
+        for name, text in (("consts.py", SHARED_CONSTS), ("prog_a.py", SHARED_A), ("prog_b.py", SHARED_B)):
+            with open(os.path.join(d, name), "w") as f:
+                f.write(text)
+        sp = os.path.join(d, "spec.json")
+        json.dump({"steps": [os.path.join(d, "prog_a.py")], "probe": os.path.join(d, "prog_b.py"), "timers": False}, open(sp, "w"))
+        rc, out, err, dt = vlib.run([vlib.PY, os.path.join(vlib.VERIF, "tools", "run_history.py"), sp], 180, cwd=d, env=vlib.impl_env())
+    finally:
+        shutil.rmtree(d, ignore_errors=True)
+    ls = [l for l in out.splitlines() if l.startswith("{")]
+    if not ls:
+        raise RuntimeError("shared-module case: harness failed: " + vlib.clean_noise(err)[-400:])
+    res = json.loads(ls[-1])
+    prog = shared_module_program()
+    exprs = list(preds.values())
+    outp, errors = progrun.eval_over_cases(ctx, "shared_module", IMPORTS, [prog], [res], exprs)
+    if errors:
+        raise RuntimeError("cases shared_module failed: " + errors[0][1])
+    nbad = 0
+    for name, e in preds.items():
+        if outp[e] or "ok" not in res:
+            nbad += 1
+            key, what = classify(name, prog, res)
+            vlib.report_failure(ctx, key + ":second-compilation-shared-module",
+                                what + " — for a program compiled after another one that imports the same helper module (module-level literals)",
+                                dict(case=dict(kind="two-programs-one-process", consts_py=SHARED_CONSTS, first_program=SHARED_A, second_program=SHARED_B),
+                                     observed=(res if "ok" not in res else {k: res["ok"][k] for k in ("literals", "operations", "outputs")}),
+                                     how_to_replay="write the three files to one directory; tools/run_history.py with steps=[prog_a.py], probe=prog_b.py"))
+    ctx.note(f"validate: second compilation in one process with a shared helper module (module-level literals): {nbad} predicate(s) violated")
+    ctx.cov["second_compilation_case"] = True
+
+
+def generic_run(ctx, preds, classify, n_quick=300, n_thorough=6000, level="proof", second_compilation=False):
     """shared body of the program-level checks: extract, prove, validate preds on implementation MIRs, tie the model"""
     import targeted
     ok_x = vlib.step_extract(ctx)
@@ -180,6 +239,8 @@ def generic_run(ctx, preds, classify, n_quick=300, n_thorough=6000, level="proof
         for i in idxs:
             key, what = classify(name, progs[i], results[i])
             vlib.report_failure(ctx, key, what, replay_payload(progs[i], results[i]))
+    if second_compilation:
+        second_compilation_case(ctx, preds, classify)
     if ok_x:
         dis = tie_model(ctx, progs, results)
         if dis is not None:
